@@ -135,7 +135,7 @@ rc::Gen<Case> gen_history(const FamSpec& spec) {
       {4, op2("cpa", sl(), sl())},
       {4, op2("mva", sl(), sl())},
       {2, op1("self", sl())},
-      {2, op3("chain", sl(), sl(), sl())},
+      {3, op3("chain", sl(), sl(), sl())},
       {2, op1("del", sl())},
       {2, op2("qry", sl(), range(0, 1 << 16))},
       {3, op4("twin", sl(), range(0, 1 << 20), range(1, mb), range(0, 1))},
